@@ -375,7 +375,7 @@ def protocol_unit(M):
     def h(ex):
         from .c01 import T_ENC, T_PROOF, T_PUBKEY, T_STATE, send
         sym = not getattr(ex, "concrete", False)
-        lz = ex.choice("leading_zero_in", ["none", "A", "K", "M1"])
+        lz = ex.choice("leading_zero_in", LZ)
         seed = ex.fresh_int("seed", 0, 7)
         bk = hap.backend(ex, M.proto)
         if sym:
@@ -417,9 +417,14 @@ def build(tier, mutate=None):
              regions=["lz-" + x for x in LZ]),
         Unit("client/two-exchanges-same-salt", two_exchanges_unit(C), two_exchanges_unit(R), bounds={"exchanges": "mistyped code, then the right code; same salt and B"}),
         Unit("client/wrong-code", wrong_code_unit(C), wrong_code_unit(R), bounds={"codes": "111-22-333 vs 999-99-999"}),
-        Unit("protocol/byte-level-use", protocol_unit(C), protocol_unit(R), bounds={"leading zero in": ["none", "A", "K", "M1"]},
-             regions=["lz-none", "lz-K"]),
+        Unit("protocol/byte-level-use", protocol_unit(C), protocol_unit(R), bounds={"leading zero in": LZ},
+             regions=["lz-none", "lz-K", "lz-M2"]),
     ]
+    if tier != "canary":
+        # what the exchange does with a wrong, missing or misplaced accessory proof is decided by C03's unit (ideal SRP)
+        from . import c03
+        units.append(Unit("protocol/M4-M6 (unit of C03)", c03.part2(c03.copies(mutate)), c03.part2(c03.reals()), split=True,
+                          bounds={"M4 proof": c03.PROOFS, "M6": c03.M6S}, regions=["m4-rejected", "paired"]))
     for u in units:
         u.diff_sample = 100000
     return units
